@@ -692,22 +692,16 @@ impl From<&CellBuffer> for Vec<Span> {
     fn from(cb: &CellBuffer) -> Vec<Span> {
         let spans: Vec<Span> =
             cb.iter().map(|(cell, ch)| Span::new(*cell, *ch)).collect();
-        // with the hooks on, the grouping happens here and is logged; the call below then
-        // finds a fixpoint and returns it unchanged
+        // with the hooks on, the same grouping is computed on a copy and logged; the pipeline's
+        // own call below is untouched (one call on the original input, as without the hooks)
         #[cfg(feature = "verif-trace")]
-        let spans = {
-            let grouped = Span::merge_recursive(spans);
-            crate::verif::emit("spans", || {
-                format!(
-                    "\"spans\":{}",
-                    crate::verif::json_list(
-                        grouped.iter(),
-                        crate::verif::json_span
-                    )
-                )
-            });
-            grouped
-        };
+        crate::verif::emit("spans", || {
+            let grouped = Span::merge_recursive(spans.clone());
+            format!(
+                "\"spans\":{}",
+                crate::verif::json_list(grouped.iter(), crate::verif::json_span)
+            )
+        });
         Span::merge_recursive(spans)
     }
 }
